@@ -7,7 +7,7 @@ use crate::pool::{self, Decoded};
 use num_bigint::{BigInt as Big, Sign};
 use pallas_codec::minicbor;
 use pallas_primitives::alonzo::PlutusData;
-use pallas_traverse::{Era, MultiEraBlock, MultiEraTx};
+use pallas_traverse::{Era, MultiEraTx};
 use pallas_utxorpc::{LedgerContext, TxoRef, UtxoMap};
 use proptest::prelude::*;
 use pvkit::blake2b::b256;
@@ -225,6 +225,37 @@ lowering!(beta, v1beta, opt_bytes_of, {
 // ---------------------------------------------------------------------------------------------
 // comparison
 
+/// Keeps checking past a failure whose signature is a recorded known finding (so that one known
+/// root cause does not hide the rest of the artefact); the first such failure is returned at the
+/// end so that the runner still counts it.
+pub struct Absorb<'a> {
+    pub s: &'a Session,
+    pub first: Option<Fail>,
+}
+
+impl<'a> Absorb<'a> {
+    pub fn new(s: &'a Session) -> Self {
+        Absorb { s, first: None }
+    }
+    pub fn run(&mut self, r: Result<(), Fail>) -> Result<(), Fail> {
+        match r {
+            Err(f) if self.s.is_known(&f.sig).is_some() => {
+                if self.first.is_none() {
+                    self.first = Some(f);
+                }
+                Ok(())
+            }
+            r => r,
+        }
+    }
+    pub fn finish(self) -> Result<(), Fail> {
+        match self.first {
+            Some(f) => Err(f),
+            None => Ok(()),
+        }
+    }
+}
+
 fn cmp_int(want: &Big, wire_int: bool, got: &MInt, path: &str) -> Result<(), Fail> {
     let v = got.value();
     if &v != want {
@@ -251,7 +282,7 @@ fn cmp_int(want: &Big, wire_int: bool, got: &MInt, path: &str) -> Result<(), Fai
     Ok(())
 }
 
-pub fn cmp_pd(want: &Pd, got: &MPd, path: &str, obs: &mut Obs) -> Result<(), Fail> {
+pub fn cmp_pd(want: &Pd, got: &MPd, path: &str, obs: &mut Obs, ab: &mut Absorb) -> Result<(), Fail> {
     match (want, got) {
         (Pd::Int(v, wire_int), MPd::Int(g)) => {
             let outside = v > &Big::from(i64::MAX) || v < &Big::from(i64::MIN);
@@ -261,7 +292,7 @@ pub fn cmp_pd(want: &Pd, got: &MPd, path: &str, obs: &mut Obs) -> Result<(), Fai
                 (false, false) => "int:bignum-in-i64",
                 (false, true) => "int:bignum-outside-i64",
             });
-            cmp_int(v, *wire_int, g, path)
+            ab.run(cmp_int(v, *wire_int, g, path))
         }
         (Pd::Bytes(a), MPd::Bytes(b)) => {
             pv_ensure!(a == b, "c44-plutus-bytes", "{path}: bytes {} mapped to {}", hexs(a), hexs(b));
@@ -270,15 +301,15 @@ pub fn cmp_pd(want: &Pd, got: &MPd, path: &str, obs: &mut Obs) -> Result<(), Fai
         (Pd::Array(a), MPd::Array(b)) => {
             pv_ensure!(a.len() == b.len(), "c44-plutus-structure", "{path}: array of {} mapped to {} items", a.len(), b.len());
             for (i, (x, y)) in a.iter().zip(b).enumerate() {
-                cmp_pd(x, y, &format!("{path}[{i}]"), obs)?;
+                cmp_pd(x, y, &format!("{path}[{i}]"), obs, ab)?;
             }
             Ok(())
         }
         (Pd::Map(a), MPd::Map(b)) => {
             pv_ensure!(a.len() == b.len(), "c44-plutus-structure", "{path}: map of {} mapped to {} pairs", a.len(), b.len());
             for (i, ((k, v), (gk, gv))) in a.iter().zip(b).enumerate() {
-                cmp_pd(k, gk, &format!("{path}{{k{i}}}"), obs)?;
-                cmp_pd(v, gv, &format!("{path}{{v{i}}}"), obs)?;
+                cmp_pd(k, gk, &format!("{path}{{k{i}}}"), obs, ab)?;
+                cmp_pd(v, gv, &format!("{path}{{v{i}}}"), obs, ab)?;
             }
             Ok(())
         }
@@ -286,7 +317,7 @@ pub fn cmp_pd(want: &Pd, got: &MPd, path: &str, obs: &mut Obs) -> Result<(), Fai
             pv_ensure!(tag == gt && any == ga, "c44-plutus-constr", "{path}: constr tag {tag}/{any} mapped to {gt}/{ga}");
             pv_ensure!(fields.len() == gf.len(), "c44-plutus-structure", "{path}: constr with {} fields mapped to {}", fields.len(), gf.len());
             for (i, (x, y)) in fields.iter().zip(gf).enumerate() {
-                cmp_pd(x, y, &format!("{path}.{i}"), obs)?;
+                cmp_pd(x, y, &format!("{path}.{i}"), obs, ab)?;
             }
             Ok(())
         }
@@ -324,7 +355,7 @@ fn cmp_u64(want: u64, got: &Option<MInt>, sig: &str, what: &str) -> Result<(), F
 }
 
 /// One mapped transaction against its wire view. `ver` names the schema version in signatures.
-pub fn check_mapped_tx(ver: &str, m: &MTx, view: &TxView, src: &[u8], obs: &mut Obs) -> Result<(), Fail> {
+pub fn check_mapped_tx(ver: &str, m: &MTx, view: &TxView, src: &[u8], obs: &mut Obs, ab: &mut Absorb) -> Result<(), Fail> {
     let want_hash = layout::tx_id(view, src);
     pv_ensure!(m.hash == want_hash, format!("c44-tx-hash:{ver}"), "hash {} expected {}", hexs(&m.hash), hexs(&want_hash));
     pv_ensure!(m.successful == view.valid, format!("c44-validity:{ver}"), "successful = {} but wire validity = {}", m.successful, view.valid);
@@ -351,8 +382,17 @@ pub fn check_mapped_tx(ver: &str, m: &MTx, view: &TxView, src: &[u8], obs: &mut 
         } else {
             ov.address.clone()
         };
-        pv_ensure!(mo.address == want_addr, format!("c44-output-address:{ver}"),
-            "output {k}: address {} on the wire, mapped to {}", hexs(&want_addr), hexs(&mo.address));
+        if mo.address != want_addr {
+            // root cause on this tree: the mapper emits Address::from_bytes(wire).to_vec() instead of the wire bytes
+            let reencoded = pallas_addresses::Address::from_bytes(&want_addr).map(|a| a.to_vec()).ok();
+            let sig = if !view.byron && reencoded.as_deref() == Some(&mo.address[..]) {
+                "c44-output-address-reserialised".to_string()
+            } else {
+                format!("c44-output-address:{ver}")
+            };
+            ab.run(Err(Fail { sig, msg: format!("output {k}: address {} ({} bytes) on the wire, mapped to {} ({} bytes)",
+                hexs(&want_addr), want_addr.len(), hexs(&mo.address), mo.address.len()) }))?;
+        }
         cmp_u64(ov.coin, &mo.coin, &format!("c44-output-coin:{ver}"), &format!("output {k} coin"))?;
         let mut want_assets: Vec<(Vec<u8>, Vec<u8>, Big)> = ov.assets.iter().map(|(p, n, q)| (p.clone(), n.clone(), Big::from(*q))).collect();
         want_assets.sort();
@@ -381,7 +421,7 @@ pub fn check_mapped_tx(ver: &str, m: &MTx, view: &TxView, src: &[u8], obs: &mut 
                         pv_fail!(format!("c44-datum-payload:{ver}"), "output {k}: payload given for datum hash {} but no witness datum has this hash", hexs(h))
                     };
                     let Some(model) = pd_model(w) else { pv_fail!("layout-error", "witness datum not understood") };
-                    cmp_pd(&model, p, &format!("output[{k}].datum"), obs)?;
+                    cmp_pd(&model, p, &format!("output[{k}].datum"), obs, ab)?;
                     obs.class("datum:hash-resolved");
                 }
             }
@@ -393,7 +433,7 @@ pub fn check_mapped_tx(ver: &str, m: &MTx, view: &TxView, src: &[u8], obs: &mut 
                 let Ok(t) = cborx::read(bytes) else { pv_fail!("layout-error", "inline datum is not one CBOR item") };
                 let Some(model) = pd_model(&t) else { pv_fail!("layout-error", "inline datum not understood") };
                 let Some(p) = &mo.datum_payload else { pv_fail!(format!("c44-datum-payload:{ver}"), "output {k}: inline datum without payload") };
-                cmp_pd(&model, p, &format!("output[{k}].datum"), obs)?;
+                cmp_pd(&model, p, &format!("output[{k}].datum"), obs, ab)?;
             }
         }
         if let Some(oc) = &mo.output_cbor {
@@ -407,7 +447,7 @@ pub fn check_mapped_tx(ver: &str, m: &MTx, view: &TxView, src: &[u8], obs: &mut 
             "{} witness datums on the wire, {} mapped", wire_datums.len(), m.witness_datums.len());
         for (j, (w, g)) in wire_datums.iter().zip(&m.witness_datums).enumerate() {
             let Some(model) = pd_model(w) else { pv_fail!("layout-error", "witness datum not understood") };
-            cmp_pd(&model, g, &format!("witness.datum[{j}]"), obs)?;
+            cmp_pd(&model, g, &format!("witness.datum[{j}]"), obs, ab)?;
             obs.class("datum:witness");
         }
     }
@@ -419,8 +459,8 @@ pub fn check_mapped_tx(ver: &str, m: &MTx, view: &TxView, src: &[u8], obs: &mut 
 
 #[derive(Debug, Clone, Serialize, Deserialize)]
 pub enum Gpd {
-    /// CBOR integer: value = mag, or -1-mag when neg
-    Int { neg: bool, mag: u64 },
+    /// CBOR integer: value = mag, or -1-mag when neg; `widen` > 0 picks a non-minimal head width
+    Int { neg: bool, mag: u64, widen: u8 },
     BigU(Vec<u8>),
     BigN(Vec<u8>),
     Bytes(Vec<u8>),
@@ -432,8 +472,11 @@ pub enum Gpd {
 
 pub fn gpd_node(g: &Gpd) -> Node {
     match g {
-        Gpd::Int { neg: false, mag } => cborx::uint(*mag),
-        Gpd::Int { neg: true, mag } => cborx::nint(*mag),
+        Gpd::Int { neg, mag, widen } => {
+            let opts = cborx::W::options(*mag);
+            let w = opts[(*widen as usize) % opts.len()];
+            cborx::node(if *neg { Kind::NInt(*mag, w) } else { Kind::UInt(*mag, w) })
+        }
         Gpd::BigU(b) => cborx::tag(2, cborx::bytes(b)),
         Gpd::BigN(b) => cborx::tag(3, cborx::bytes(b)),
         Gpd::Bytes(b) => {
@@ -465,8 +508,9 @@ fn gint() -> impl Strategy<Value = Gpd> {
         Just(u32::MAX as u64 + 1), Just(i64::MAX as u64 - 1), Just(i64::MAX as u64), Just(i64::MAX as u64 + 1),
         Just(i64::MAX as u64 + 2), Just(u64::MAX - 1), Just(u64::MAX),
     ];
-    (any::<bool>(), prop_oneof![3 => edge, 2 => any::<u64>(), 2 => (0u64..1000), 2 => (i64::MAX as u64 - 5..=u64::MAX)])
-        .prop_map(|(neg, mag)| Gpd::Int { neg, mag })
+    (any::<bool>(), prop_oneof![3 => edge, 2 => any::<u64>(), 2 => 0u64..1000, 2 => i64::MAX as u64 - 5..=u64::MAX],
+        prop_oneof![3 => Just(0u8), 1 => 1u8..5])
+        .prop_map(|(neg, mag, widen)| Gpd::Int { neg, mag, widen })
 }
 
 fn gleaf() -> impl Strategy<Value = Gpd> {
@@ -503,14 +547,22 @@ pub enum Case {
     InOutput { src: String, idx: Option<u16>, out: u16, datum: Gpd },
 }
 
-fn both_txs(tx: &MultiEraTx, view: &TxView, src: &[u8], obs: &mut Obs) -> Result<(), Fail> {
+fn both_txs(tx: &MultiEraTx, view: &TxView, src: &[u8], obs: &mut Obs, ab: &mut Absorb) -> Result<(), Fail> {
     let a = alpha::Mapper::new(NoLedger).map_tx(tx);
-    check_mapped_tx("v1alpha", &alpha::mtx(&a), view, src, obs)?;
+    check_mapped_tx("v1alpha", &alpha::mtx(&a), view, src, obs, ab)?;
     let b = beta::Mapper::new(NoLedger).map_tx(tx);
-    check_mapped_tx("v1beta", &beta::mtx(&b), view, src, obs)
+    check_mapped_tx("v1beta", &beta::mtx(&b), view, src, obs, ab)
 }
 
-fn check(c: &Case, obs: &mut Obs) -> Result<(), Fail> {
+fn check(s: &Session, c: &Case, obs: &mut Obs) -> Result<(), Fail> {
+    let mut ab = Absorb::new(s);
+    let ab = &mut ab;
+    let r = check_inner(c, obs, ab);
+    r?;
+    std::mem::replace(ab, Absorb::new(s)).finish()
+}
+
+fn check_inner(c: &Case, obs: &mut Obs, ab: &mut Absorb) -> Result<(), Fail> {
     match c {
         Case::Corpus { name } => {
             let Some(e) = pool::lookup(name) else {
@@ -540,7 +592,7 @@ fn check(c: &Case, obs: &mut Obs) -> Result<(), Fail> {
                         pv_ensure!(mb.hash == want_hash, format!("c44-block-hash:{ver}"), "block hash {} expected {}", hexs(&mb.hash), hexs(&want_hash));
                         pv_ensure!(mb.txs.len() == view.txs.len(), format!("c44-block-tx-count:{ver}"), "{} txs mapped, {} in the block", mb.txs.len(), view.txs.len());
                         for (m, tv) in mb.txs.iter().zip(&view.txs) {
-                            check_mapped_tx(ver, m, tv, bytes, obs)?;
+                            check_mapped_tx(ver, m, tv, bytes, obs, ab)?;
                         }
                     }
                     if !view.txs.is_empty() {
@@ -553,7 +605,7 @@ fn check(c: &Case, obs: &mut Obs) -> Result<(), Fail> {
                         Err(e) => pv_fail!("layout-error", "{e}"),
                     };
                     obs.class("tx");
-                    both_txs(tx, &view, bytes, obs)?;
+                    both_txs(tx, &view, bytes, obs, ab)?;
                     obs.nontrivial();
                 }
                 Decoded::Header(..) => obs.discard(),
@@ -575,9 +627,9 @@ fn check(c: &Case, obs: &mut Obs) -> Result<(), Fail> {
             obs.class("datum-decoded");
             obs.nontrivial();
             let a = alpha::Mapper::new(NoLedger).map_plutus_datum(&pd);
-            cmp_pd(&model, &alpha::mpd(&a), "datum", obs)?;
+            cmp_pd(&model, &alpha::mpd(&a), "datum", obs, ab)?;
             let b = beta::Mapper::new(NoLedger).map_plutus_datum(&pd);
-            cmp_pd(&model, &beta::mpd(&b), "datum", obs)
+            cmp_pd(&model, &beta::mpd(&b), "datum", obs, ab)
         }
         Case::InOutput { src, idx, out, datum } => {
             // rebuild the transaction with the datum inline in one output and among the witness datums
@@ -654,7 +706,7 @@ fn check(c: &Case, obs: &mut Obs) -> Result<(), Fail> {
             };
             obs.class("in-output-decoded");
             obs.nontrivial();
-            both_txs(&tx, &view, &bytes, obs)
+            both_txs(&tx, &view, &bytes, obs, ab)
         }
     }
 }
@@ -674,8 +726,8 @@ pub fn run(s: &Session) {
     let thorough = !s.quick();
     let p = pool::pool(thorough);
     let names = p.names(&["block", "tx"]);
-    s.foreach("corpus", names.iter().map(|n| Case::Corpus { name: n.clone() }).collect(), true, check);
-    s.forall("generated-datums", s.pick(60_000, 1_500_000), || gpd().prop_map(|datum| Case::Datum { datum }), check);
+    s.foreach("corpus", names.iter().map(|n| Case::Corpus { name: n.clone() }).collect(), true, |c, o| check(s, c, o));
+    s.forall("generated-datums", s.pick(60_000, 1_500_000), || gpd().prop_map(|datum| Case::Datum { datum }), |c, o| check(s, c, o));
     let src: Vec<(String, Option<u16>)> = crate::c31::sources(false).iter().filter(|x| x.2 >= 6).map(|x| (x.0.clone(), x.1)).collect();
     s.forall("datum-in-output", s.pick(15_000, 300_000), move || {
         let src = src.clone();
@@ -683,7 +735,7 @@ pub fn run(s: &Session) {
             let (name, idx) = &src[pvkit::pick_idx(sel, src.len())];
             Case::InOutput { src: name.clone(), idx: *idx, out, datum }
         })
-    }, check);
+    }, |c, o| check(s, c, o));
     for c in ["int:cbor-int-in-i64", "int:cbor-int-outside-i64", "int:bignum-in-i64", "int:bignum-outside-i64", "datum:inline",
         "datum:hash", "datum:witness", "output-with-assets", "datum-decoded", "in-output-decoded", "tx",
         "block:byron", "block:shelley", "block:mary", "block:alonzo", "block:babbage", "block:conway"] {
